@@ -67,6 +67,17 @@ Theorem idm_nonatomic_increment_refuted :
 Proof. exact idm_nonatomic_increment_refuted_thm. Qed.
 Print Assumptions idm_nonatomic_increment_refuted.
 
+(* a call that no other access interleaves with behaves exactly as the op-atomic model Ident.qthread_id (the function the
+   theorems of Properties_C09.v are about and the regeneration tie Gen/Ident.v proves equal to the source) *)
+Theorem idm_solo_call : forall s i, t_pc (s_tasks s i) = PIdle ->
+  exists k, (k <= CALL_STEPS)%nat /\
+    let s' := run true s (repeat i k) in
+    let '(r, f', c') := qthread_id (t_fld (s_tasks s i)) (s_ctr s) in
+    t_pc (s_tasks s' i) = PIdle /\ t_rets (s_tasks s' i) = r :: t_rets (s_tasks s i) /\
+    t_fld (s_tasks s' i) = f' /\ s_ctr s' = c' /\ forall j, j <> i -> s_tasks s' j = s_tasks s j.
+Proof. exact idm_solo_call_thm. Qed.
+Print Assumptions idm_solo_call.
+
 (* ---------------- descriptor life cycle (Kernel/Reuse.v): spawn / id / get_tasklocal / write / finish with the two pools -------------- *)
 
 (* a recycled (or fresh) descriptor starts unassigned, whatever id its previous owner had: the first qthread_id() of the new
